@@ -18,6 +18,14 @@ CHECKS = {
    technique="explicit-state BFS over single-track API histories, every reached value converted and compared with a split-by-channel oracle; enumeration of dense many-events-per-tick files",
    text="Every single-track file reachable with up to 3-8 events over 10 message classes (channels 0, 1, 15, meta, sysex, escape), deltas {0,1,100}, closed early/late/not at all, metric and SMPTE division, is converted with ConvertToSMF1; the result must keep the division, hold all non-channel messages on the first track and one track per used channel in ascending order, every message at its original absolute tick and in original relative order, nothing lost or duplicated, every track terminated exactly once, and must serialise to a strictly valid file. Dense files (1..120 events, 6 kind patterns x 5 tick patterns) force the sort to work.",
    note="Trusted: oracle in harness/c16. Bounded: message values outside the alphabet; more than 120 events on a tick."),
+ "C02": dict(level="exploration", engine="enum", design="4/C02",
+   technique="bounded exhaustive enumeration of all files of a byte-level SMF grammar generator, each decoded by the library and compared with the generator's abstract content (cross-checked by an independent decoder)",
+   text="All files of the grammar generator within the bound: 30 event tokens (explicit and running-status channel events, meta of length 0/3/127/128/padded, unknown meta, tempo, sequence number, F0 with and without F7, F7 continuation and escapes, empty and 200-byte sysex) x 6 delta encodings (incl. non-minimal) in sequences up to depth 2-6 in a plain file, and depth 1-2 in every file shape (formats 0/1/2, 1-3 tracks, 16 metric/SMPTE divisions, alien chunks of 4 body kinds before/between/after tracks); boundary files with 32766..65535 tracks. The library must return the same header fields, track count and per track the same deltas and canonical messages.",
+   note="Trusted: generator + tolerant decoder in /verif/harness (they must agree on every file, else exit 2). Bounded: token values (one representative per class), sequence depth; the reader's carried state is one status byte and two flags, which depth 3 covers."),
+ "C05": dict(level="fault_enumeration", engine="enum", design="4/C05",
+   technique="bounded exhaustive enumeration of malformed inputs (all short strings over a byte-class alphabet, all header field values, all single-byte substitutions) and of every truncation point of a generated file family, executed on the real reader with panic/termination/result-shape/allocation/prefix oracles",
+   text="Every byte string of length <=5 (thorough 6) over a 16-byte alphabet as track body, every string of length <=4 over alphabet+chunk-magic letters as whole file and after a valid magic; all 65536 values of each header field; declared x actual track counts; explicit huge declared lengths in every length-carrying position; all 255 substitutions at every offset of ~45 representative valid files plus alphabet pairs on the five smallest; every truncation point of every file of a generated family (depth 1 in every shape, depth 2 in the plain file). Oracles: the call returns within a read budget, no panic, exactly one of value/error, allocation <= 64 KiB + 256 x len(input), accepted prefixes are event-for-event prefixes with the original header.",
+   note="Trusted: tolerant reference decoder for the prefix oracle; runtime/metrics allocation counter (suspicious cases re-measured exactly). The random / coverage-guided part of the property's quantifier is sampling and is replaced by these exhaustive bounded spaces."),
 }
 
 NOT_YET = "check not built yet in this session (see DESIGN.md section 4 for the planned exploration)"
